@@ -9,7 +9,10 @@
                   kind 0 f64 / 1 Dual / 2 Dual2 coefficients (c, y encoded accordingly);
                   query = 0 x m (ppdnev_single) | 1 X m (ppdnev_single_dual) | 2 X m (.._dual2)
                         | 3 number (mapped_value)
-                  output: outcome of new; outcome of csolve with the coefficients; each query *)
+                  output: outcome of new; outcome of csolve with the coefficients; each query
+     op 3  evd  : kind(1|2) i k orgflag org nt t* X  -> bsplev_single_dual / _dual2 (X a Dual / Dual2 abscissa)
+     op 4  vec  : k i m nt t* nx x*                  -> PPSpline::new(k, t, None).bspldnev(x, i, m): `0 n bits*` | 2
+     op 5  ppeq : kind(0|1|2) A B, each = k nt t* hasc [nc c*] -> `0 (A == B) (B == A)` | 2 (a constructor aborts) *)
 From Coq Require Import ZArith List Bool Floats.
 From RL Require Import Base.Outcome Base.Num Base.Str Base.NumFloat Model.Dual Model.Number Model.Linalg
   Model.Spline Model.PPSpline Run.RunBase Run.RunNum.
@@ -120,8 +123,50 @@ Definition runSplineC15 (c : list Z) : list Z :=
   | _ => [-1]
   end.
 
+(* ---------------------------------------------------------------- basis at a dual abscissa, vector form, == *)
+Definition rd_pp {E} (rdE : list Z -> E * list Z) (l : list Z) : outcome (@ppspline float E) * list Z :=
+  let '(k, r) := rd_nat l in
+  let '(t, r) := rd_fvec r in
+  let '(hasc, r) := rd_nat r in
+  let '(c, r) := (if Nat.eqb hasc 1 then let '(c, r) := rd_vec rdE r in (Some c, r) else (None, r)) in
+  (pp_new k t c, r).
+Definition ppeq_run {E} (rdE : list Z -> E * list Z) (e : E -> E -> bool) (l : list Z) : list Z :=
+  let '(a, r) := rd_pp rdE l in
+  let '(b, _) := rd_pp rdE r in
+  match a, b with
+  | Ok x, Ok y => [0; zb (pp_eqb e x y); zb (pp_eqb e y x)]
+  | _, _ => [2]
+  end.
+
+Definition runSplineX (c : list Z) : list Z :=
+  match c with
+  | 3 :: 1 :: i :: k :: fl :: org :: r =>
+      let '(t, r) := rd_fvec r in
+      let '(x, _) := rd_dual r in
+      out_gen wr_dual (bsplev_dual x (Z.to_nat i) (Z.to_nat k) t (rd_org fl org))
+  | 3 :: _ :: i :: k :: fl :: org :: r =>
+      let '(t, r) := rd_fvec r in
+      let '(x, _) := rd_dual2 r in
+      out_gen wr_dual2 (bsplev_dual2 x (Z.to_nat i) (Z.to_nat k) t (rd_org fl org))
+  | 4 :: k :: i :: m :: r =>
+      let '(t, r) := rd_fvec r in
+      let '(xs, _) := rd_fvec r in
+      match pp_new (E:=float) (Z.to_nat k) t None with
+      | Ok s => match pp_bspldnev s xs (Z.to_nat i) (Z.to_nat m) with
+                | Ok ys => 0 :: Z.of_nat (length ys) :: wr_fs ys
+                | _ => [2]
+                end
+      | _ => [2]
+      end
+  | 5 :: 0 :: r => ppeq_run rd_f neqb r
+  | 5 :: 1 :: r => ppeq_run rd_dual (deqb false) r
+  | 5 :: _ :: r => ppeq_run rd_dual2 (d2eqb false) r
+  | _ => [-1]
+  end.
+
 Definition runSpline (c : list Z) : list Z :=
   match c with
   | 10 :: _ => runSplineC15 c
+  | 3 :: _ | 4 :: _ | 5 :: _ => runSplineX c
   | _ => runSplineC14 c
   end.
